@@ -1667,10 +1667,13 @@ where
 
                         // A COPY that has only started is counted, and the server released, when it ends.
                         if !server.in_transaction() && !server.in_copy_mode() {
-                            self.stats.transaction();
-                            server
-                                .stats()
-                                .transaction(self.server_parameters.get_application_name());
+                            // A batch answered from the statement cache alone ran nothing on the server.
+                            if should_send_to_server {
+                                self.stats.transaction();
+                                server
+                                    .stats()
+                                    .transaction(self.server_parameters.get_application_name());
+                            }
 
                             // Release server back to the pool if we are in transaction mode.
                             // If we are in session mode, we keep the server until the client disconnects.
